@@ -1,5 +1,6 @@
 import FrappyProofs.Lemmas.Dispatch
 import FrappyProofs.Lemmas.CheckChain
+import FrappyProofs.Lemmas.Forward
 import FrappyModel.Generated.C04
 import FrappyProofs.Props.C01
 /-
@@ -1209,5 +1210,254 @@ open LayoutExample Example in
 example : chainOf [{}, { declMax := true }] 0 = [.limits] ∧
     (handleChange pre env [mR] (.full "m" "target") 60).calls = [DriverCall.write "m" "target" 60] := by
   decide +kernel
+
+/-! ## write paths that forward (StructParam, FloatEnumParam; seeded change C04-m10)
+
+`Node/Forward.lean`: the write method of a member of a StructParam (struct layout), of the StructParam itself (member
+layout), of a FloatEnumParam is generated and calls the WRAPPED write method of another parameter.  The theorems are
+about every module, every forwarding structure `body`, every datatype / driver / hook oracle, every operation on values. -/
+
+section forward
+open Frappy.Node.Forward Frappy.Lemmas.Forward
+
+/-- **No driver-written write method is reached around the checks of its own parameter** (full strength, any forwarding
+structure).  Whatever parameter the request addressed: a driver method `write_<b>` is called only for a parameter `b` on
+the write path of the request, only if `b` itself lets the value it is handed through — valid for its datatype, inside
+the CURRENT limits of `b`, the `check_<b>` hooks agree (`VisitOK`) — and with exactly the validated value.  For a request
+that arrives through a member of a struct, `b` is the struct and the value the member put into the current struct. -/
+theorem forward_call_checked (c : Ctx J V) (fuel : Nat) (a : String) (v : V) (call : DriverCall V)
+    (h : call ∈ (wrap fuel c a v).calls) :
+    ∃ b u p w, Reach c a v b u ∧ c.body b = .driver ∧ VisitOK c b u ∧ paramOf c.mod b = some p ∧
+      p.dt.revalidate u = .ok w ∧ call = DriverCall.write c.mod.name b w := by
+  obtain ⟨b, u, p, w, hr, hb, he, hc⟩ := wrap_call_checked c fuel a v call h
+  have := (enter_ok_iff c b u p w).1 he
+  exact ⟨b, u, p, w, hr, hb, enter_visitOK c b u (p, w) he, this.1, this.2.1, hc⟩
+
+/-- nothing is handed on by a driver-written method: the path ends there -/
+theorem reach_driver (c : Ctx J V) (s : String) (x : V) (hs : c.body s = .driver) (b : String) (u : V)
+    (h : Reach c s x b u) : b = s ∧ u = x := by
+  cases h with
+  | here => exact ⟨rfl, rfl⟩
+  | step hh _ =>
+    obtain ⟨p, w, _, _, hm⟩ := hh
+    simp [succs, hs] at hm
+
+/-- **The clause seeded change C04-m10 breaks.**  A request addressed to a MEMBER of a struct whose `write_<struct>` is
+the driver's: the driver is called only if the member lets the payload through AND the struct lets the merged value
+through (limits and `check_<struct>` hooks of the struct, on the member put into the current value of the struct); it
+gets exactly that merged value, validated. -/
+theorem forward_member_needs_struct_checks (c : Ctx J V) (fuel : Nat) (a s key : String) (v : V) (call : DriverCall V)
+    (ha : c.body a = .toStruct s key) (hs : c.body s = .driver) (h : call ∈ (wrap fuel c a v).calls) :
+    ∃ p w cur ps ws, paramOf c.mod a = some p ∧ p.dt.revalidate v = .ok w ∧ VisitOK c a v ∧
+      attrValue c.mod s = some cur ∧ VisitOK c s (c.ops.set cur key w) ∧ paramOf c.mod s = some ps ∧
+      ps.dt.revalidate (c.ops.set cur key w) = .ok ws ∧ call = DriverCall.write c.mod.name s ws := by
+  obtain ⟨b, u, pb, wb, hr, hb, hvis, hpb, hrb, hcall⟩ := forward_call_checked c fuel a v call h
+  cases hr with
+  | here => rw [ha] at hb; cases hb
+  | step hh hr' =>
+    obtain ⟨p, w, hp, hw, hm⟩ := hh
+    simp only [succs, ha] at hm
+    cases hcur : attrValue c.mod s with
+    | none => simp [hcur] at hm
+    | some cur =>
+      simp only [hcur, List.mem_singleton, Prod.mk.injEq] at hm
+      obtain ⟨rfl, rfl⟩ := hm
+      obtain ⟨rfl, rfl⟩ := reach_driver c _ _ hs b u hr'
+      have hva : VisitOK c a v := by
+        cases fuel with
+        | zero => simp [wrap] at h
+        | succ f =>
+          cases he : enter c a v with
+          | error e => simp [wrap, he] at h
+          | ok pw => exact enter_visitOK c a v pw he
+      exact ⟨p, w, cur, pb, wb, hp, hw, hva, rfl, hvis, hpb, hrb, hcall⟩
+
+/-- **All or nothing, for classes without a StructParam in member layout** (`Linear`): if a driver is called, EVERY
+parameter of the write path let its value through — the addressed one and everyone the value is handed to -/
+theorem forward_calls_only_if_path_ok (c : Ctx J V) (hl : Linear c) (fuel : Nat) (a : String) (v : V)
+    (hex : (wrap fuel c a v).exhausted = false) (h : (wrap fuel c a v).calls ≠ []) : PathOK c a v :=
+  wrap_path_ok c hl fuel a v hex (.inl h)
+
+/-- … and when some parameter of the path objects, no driver is called and the request ends with an exception -/
+theorem forward_rejected_is_inert (c : Ctx J V) (hl : Linear c) (fuel : Nat) (a : String) (v : V)
+    (hex : (wrap fuel c a v).exhausted = false) (h : ¬ PathOK c a v) :
+    (wrap fuel c a v).calls = [] ∧ (wrap fuel c a v).err ≠ none := by
+  constructor
+  · apply Classical.byContradiction
+    intro hc
+    exact h (wrap_path_ok c hl fuel a v hex (.inl hc))
+  · intro hn
+    exact h (wrap_path_ok c hl fuel a v hex (.inr hn))
+
+/-- … and the driver is invoked at most once -/
+theorem forward_calls_le_one (c : Ctx J V) (hl : Linear c) (fuel : Nat) (a : String) (v : V) :
+    (wrap fuel c a v).calls.length ≤ 1 := wrap_calls_le_one c hl fuel a v
+
+/-- the same for a whole `change` request: a driver-written write method is called only for an existing exported
+parameter that is neither read-only nor constant, with a payload its datatype accepts (merged into the cached value), and
+then only as `forward_call_checked` says -/
+theorem change_forward_call_checked (pre : Predef) (fuel : Nat) (env : Env V) (ops : ValOps V)
+    (body : String → String → Body) (n : Node J V) (spec : Spec) (j : J) (call : DriverCall V)
+    (h : call ∈ (handleChangeFwd pre fuel env ops body n spec j).calls) :
+    ∃ m a mod p v, target "target" spec = some (m, a) ∧ lookupParam pre n m a = .ok (mod, p) ∧
+      p.readonly = false ∧ p.constant = none ∧ p.dt.accept j (some p.entry.value) = .ok v ∧
+      ∃ b u q w, Reach ⟨env, ops, mod, body mod.name⟩ p.attr v b u ∧ body mod.name b = .driver ∧
+        VisitOK ⟨env, ops, mod, body mod.name⟩ b u ∧ paramOf mod b = some q ∧ q.dt.revalidate u = .ok w ∧
+        call = DriverCall.write mod.name b w := by
+  unfold handleChangeFwd at h
+  cases ht : target "target" spec with
+  | none => simp [ht] at h
+  | some ma =>
+    obtain ⟨m, a⟩ := ma
+    simp only [ht] at h
+    cases hl : lookupParam pre n m a with
+    | error e => simp [hl] at h
+    | ok mp =>
+      obtain ⟨mod, p⟩ := mp
+      simp only [hl] at h
+      cases had : admitChange env mod { p with checks := [] } j with
+      | error e => simp [had] at h
+      | ok vw =>
+        obtain ⟨v, w⟩ := vw
+        simp only [had] at h
+        obtain ⟨hro, hc, hacc, _, _, _⟩ := (admitChange_ok_iff env mod { p with checks := [] } j v w).1 had
+        obtain ⟨b, u, q, w', hr, hb, hv, hq, hw', hcall⟩ :=
+          forward_call_checked ⟨env, ops, mod, body mod.name⟩ fuel p.attr v call h
+        exact ⟨m, a, mod, p, v, rfl, hl, hro, hc, hacc, b, u, q, w', hr, hb, hv, hq, hw', hcall⟩
+
+/-- the monitor refuses only what the statement refuses: a `refuse` of the decision list `pathVerdict` (any depth bound)
+means that some parameter of the write path does object (`¬ PathOK`) -/
+theorem pathVerdict_refuse_sound (c : Ctx J V) (fuel : Nat) (a : String) (v : V) (cls : ErrCls)
+    (h : pathVerdict fuel c a v = .refuse cls) : ¬ PathOK c a v := by
+  intro hp
+  unfold pathVerdict at h
+  cases hf : (pathList fuel c a v).findSome? (fun av => visitVerdict c av.1 av.2) with
+  | none => simp [hf] at h
+  | some cls' =>
+    obtain ⟨av, hav, hv⟩ := List.exists_of_findSome?_eq_some hf
+    have hok := (visitVerdict_none_iff c av.1 av.2).2 (hp _ _ (mem_pathList_reach c fuel a v av hav))
+    rw [hok] at hv; cases hv
+
+/-- the all-or-nothing reading for EVERY forwarding structure (StructParam in member layout included): does NOT hold
+for the code as it is (`forward_members_counterexample`); `forward_calls_only_if_path_ok` is the part that holds
+(hypothesis `Linear`), `forward_call_checked` what holds without it (each driver method behind its own checks) -/
+def forward_all_or_nothing_statement : Prop :=
+  ∀ (c : Ctx Nat Nat) (fuel : Nat) (a : String) (v : Nat),
+    (wrap fuel c a v).exhausted = false → (wrap fuel c a v).calls ≠ [] → PathOK c a v
+
+theorem forward_all_or_nothing_partial (c : Ctx Nat Nat) (hl : Linear c) (fuel : Nat) (a : String) (v : Nat)
+    (hex : (wrap fuel c a v).exhausted = false) (h : (wrap fuel c a v).calls ≠ []) : PathOK c a v :=
+  forward_calls_only_if_path_ok c hl fuel a v hex h
+
+namespace ForwardExample
+/-- a struct {p, i} as the number 100·p + i -/
+def ops : ValOps Nat where
+  get := fun v k => if k = "p" then some (v / 100) else if k = "i" then some (v % 100) else none
+  set := fun v k x => if k = "p" then x * 100 + v % 100 else (v / 100) * 100 + x
+  closest := fun _ _ v => v
+
+def dtAny : DtOps Nat Nat where
+  accept := fun j _ => .ok j
+  revalidate := fun v => .ok v
+  convert := fun r => match r with | some v => .ok v | none => .error ⟨.wrongType, "None"⟩
+  exportV := fun v => v
+  datainfo := 0
+
+def par (attr : String) (value : Nat) (checks : List Check) : Param Nat Nat :=
+  { attr, exp := .auto, limitHead := none, isLimitsPair := false, readonly := false, constant := none, dt := dtAny,
+    entry := ⟨value, none⟩, checks, hasRead := false, hasWrite := true, props := [] }
+
+/-- ctrl = {p: 0, i: 9}, `check_ctrl` refuses p·i > 100, `pid_i_max` = 10 -/
+def m : Module Nat Nat :=
+  { name := "m", exported := true, props := [],
+    accs := [.param (par "ctrl" 9 [.hook 0]), .param (par "pid_p" 0 []), .param (par "pid_i" 9 [.limits]),
+             .param (par "pid_i_max" 10 [])] }
+
+def env : Env Nat where
+  drv := fun _ => .none
+  chk := fun _ attr _ v => if attr = "ctrl" ∧ (v / 100) * (v % 100) > 100 then .raise ⟨.rangeError, "p*i"⟩ else .pass
+  le := fun a b => decide (a ≤ b)
+  lt := fun a b => decide (a < b)
+  split := fun v => (v, v)
+
+/-- struct layout: `write_ctrl` is the driver's, `write_pid_p` / `write_pid_i` are generated -/
+def bodyA : String → Body := fun a =>
+  if a = "ctrl" then .driver else if a = "pid_p" then .toStruct "ctrl" "p" else if a = "pid_i" then .toStruct "ctrl" "i" else .absent
+/-- member layout: `write_pid_p` / `write_pid_i` are the driver's, `write_ctrl` is generated -/
+def bodyB : String → Body := fun a =>
+  if a = "ctrl" then .toMembers [("p", "pid_p"), ("i", "pid_i")] else if a = "pid_p" ∨ a = "pid_i" then .driver else .absent
+
+/-- the wrapper let the value through -/
+def okB {ε α : Type} : Except ε α → Bool
+  | .ok _ => true
+  | .error _ => false
+
+def cA : Ctx Nat Nat := ⟨env, ops, m, bodyA⟩
+def cB : Ctx Nat Nat := ⟨env, ops, m, bodyB⟩
+
+theorem linearA : Linear cA := by
+  intro a ms h
+  simp only [cA, bodyA] at h
+  split at h
+  · cases h
+  · split at h
+    · cases h
+    · split at h <;> cases h
+end ForwardExample
+
+open ForwardExample in
+/-- non-vacuity: `change m:pid_p 5` reaches `write_ctrl` once, with the member put into the cached struct {p:0, i:9} -/
+example : (wrap 4 cA "pid_p" 5).calls = [DriverCall.write "m" "ctrl" 509] ∧ (wrap 4 cA "pid_p" 5).exhausted = false := by
+  decide +kernel
+
+open ForwardExample in
+/-- the situation of the seeded change: p = 50 with the current i = 9 is refused by `check_ctrl`: no driver call, RangeError -/
+example : (wrap 4 cA "pid_p" 50).calls = [] ∧ (wrap 4 cA "pid_p" 50).err = some ⟨.rangeError, "p*i"⟩ := by
+  decide +kernel
+
+open ForwardExample in
+/-- `forward_member_needs_struct_checks` applies to the accepted request (hypotheses satisfiable, conclusion non-trivial) -/
+example : ∃ cur, attrValue cA.mod "ctrl" = some cur ∧ VisitOK cA "ctrl" (cA.ops.set cur "p" 5) := by
+  obtain ⟨p, w, cur, ps, ws, hp, hw, _, hcur, hv, _⟩ :=
+    forward_member_needs_struct_checks cA 4 "pid_p" "ctrl" "p" 5 (DriverCall.write "m" "ctrl" 509) rfl rfl
+      (by decide +kernel)
+  have : w = 5 := by
+    have hp' : paramOf cA.mod "pid_p" = some (par "pid_p" 0 []) := rfl
+    rw [hp'] at hp; cases hp
+    exact (Except.ok.inj hw).symm
+  subst this
+  exact ⟨cur, hcur, hv⟩
+
+open ForwardExample in
+/-- `pathVerdict_refuse_sound` is not vacuous: the monitor refuses the seeded situation with RangeError -/
+example : pathVerdict 4 cA "pid_p" 50 = .refuse .rangeError := by decide +kernel
+
+open ForwardExample in
+/-- `forward_rejected_is_inert` on the refused request: the path is not OK, so nothing is called -/
+example : (wrap 4 cA "pid_p" 50).calls = [] :=
+  (forward_rejected_is_inert cA linearA 4 "pid_p" 50 (by decide +kernel) (by
+    intro hp
+    have hr : Reach cA "pid_p" 50 "ctrl" 5009 :=
+      .step ⟨par "pid_p" 0 [], 50, rfl, rfl, by decide +kernel⟩ (.here _ _)
+    obtain ⟨pw, he⟩ := visitOK_enter cA "ctrl" 5009 (hp _ _ hr)
+    have : okB (enter cA "ctrl" 5009) = false := by decide +kernel
+    rw [he] at this; cases this)).1
+
+open ForwardExample in
+/-- **Finding (recorded, `known_findings/C04.json`)**: member layout, `change m:ctrl {p: 3, i: 30}` with `pid_i_max` = 10:
+`write_pid_p(3)` reaches the driver, then the request is refused with RangeError by the limit of `pid_i` -/
+theorem forward_members_counterexample : ¬ forward_all_or_nothing_statement := by
+  intro hst
+  have hcalls : (wrap 4 cB "ctrl" 330).calls = [DriverCall.write "m" "pid_p" 3] ∧
+      (wrap 4 cB "ctrl" 330).err = some ⟨.rangeError, ""⟩ ∧ (wrap 4 cB "ctrl" 330).exhausted = false := by
+    decide +kernel
+  have hp := hst cB 4 "ctrl" 330 hcalls.2.2 (by rw [hcalls.1]; simp)
+  have hr : Reach cB "ctrl" 330 "pid_i" 30 :=
+    .step ⟨par "ctrl" 9 [.hook 0], 330, rfl, rfl, by decide +kernel⟩ (.here _ _)
+  obtain ⟨pw, he⟩ := visitOK_enter cB "pid_i" 30 (hp _ _ hr)
+  have : okB (enter cB "pid_i" 30) = false := by decide +kernel
+  rw [he] at this; cases this
+
+end forward
 
 end Frappy.Props.C04
